@@ -305,6 +305,7 @@ func TestVerif_C18(t *testing.T) {
 		}
 	}
 	vfC18Handlers(rec)
+	vfC18ZeroRates(rec)
 }
 
 func vfAdvClass(d time.Duration) string {
@@ -820,4 +821,101 @@ func vfRLIP(k int) string {
 		return fmt.Sprintf("::ffff:10.0.1.%d", k)
 	}
 	return fmt.Sprintf("10.0.0.%d", k)
+}
+
+// vfC18ZeroRates: a configuration the administrator wrote with rates of zero ("the burst and no
+// refill") given to New(), to UpdateExportOptions and to UpdatePolicyOptions. The bound of the
+// statement is burst + rate x elapsed with the CONFIGURED rate: once the burst is used up no amount
+// of (virtual) time admits another request of that kind.
+func vfC18ZeroRates(rec *evid.Rec) {
+	for _, via := range []string{"New", "UpdateExportOptions", "UpdatePolicyOptions"} {
+		t0 := time.Unix(1_800_000_000, 0)
+		vfClockSet(t0)
+		cfg := DefaultRateLimiterConfig()
+		cfg.ReadLargeOpsPerSecond, cfg.WriteLargeOpsPerSecond, cfg.ReaddirOpsPerSecond, cfg.MountOpsPerMinute = 0, 0, 0, 0
+		fs := refs.New()
+		fs.PlantFile("/f", make([]byte, 200000), 0666, 0, 0)
+		o := ExportOptions{AttrCacheTimeout: 1, TransferSize: 262144}
+		if via == "New" {
+			o.EnableRateLimiting, o.RateLimitConfig = true, &cfg
+		}
+		srv, err := vfNewSrv(fs, o)
+		if err != nil {
+			rec.Infra(err.Error())
+			return
+		}
+		switch via {
+		case "UpdateExportOptions":
+			u := srv.nfs.GetExportOptions()
+			u.EnableRateLimiting, u.RateLimitConfig = true, &cfg
+			if err := srv.nfs.UpdateExportOptions(u); err != nil {
+				rec.Distinct("zero-rates|" + via + "|update-refused")
+				srv.Close()
+				continue
+			}
+		case "UpdatePolicyOptions":
+			p := *srv.nfs.policy.Load()
+			p.EnableRateLimiting, p.RateLimitConfig = true, &cfg
+			if err := srv.nfs.UpdatePolicyOptions(p); err != nil {
+				rec.Distinct("zero-rates|" + via + "|update-refused")
+				srv.Close()
+				continue
+			}
+		}
+		c := srv.client()
+		c.IP = "10.7.7.7"
+		root, err := c.mnt("/")
+		if err != nil {
+			// with a mount rate of zero the very first MNT may already be beyond the budget
+			c2 := srv.client()
+			root, err = c2.mnt("/")
+		}
+		l, _ := srv.client().lookup(root, "f")
+		if err != nil || l == nil || l.Status != 0 {
+			rec.Distinct("zero-rates|" + via + "|no-handle")
+			srv.Close()
+			continue
+		}
+		fh := vfFH(l.FH)
+		status := func(proc uint32, args []byte) (uint32, bool) {
+			_, raw, err := c.rawCall(vfProgNFS, 3, proc, args)
+			if err != nil || len(raw) < 28 {
+				return 0, false
+			}
+			b := raw[24:28]
+			return uint32(b[0])<<24 | uint32(b[1])<<16 | uint32(b[2])<<8 | uint32(b[3]), true
+		}
+		for _, k := range []struct {
+			name string
+			proc uint32
+			args []byte
+		}{
+			{"large-read", 6, xdrw.ArgRead(fh, 0, 100000)},
+			{"large-write", 7, xdrw.ArgWrite(fh, 0, 70000, 2, make([]byte, 70000))},
+			{"readdir", 16, xdrw.ArgReaddir(root, 0, [8]byte{}, 4096)},
+		} {
+			first := 0
+			for i := 0; i < 40; i++ {
+				rec.Eval(1)
+				if st, ok := status(k.proc, k.args); ok && st == 0 {
+					first++
+				}
+			}
+			// the burst is used up (40 is above every burst of these kinds); now time passes
+			later := 0
+			for step := 0; step < 5; step++ {
+				vfClockAdvance(13 * time.Second)
+				for i := 0; i < 3; i++ {
+					if st, ok := status(k.proc, k.args); ok && st == 0 {
+						later++
+					}
+				}
+			}
+			if first < 40 && later > 0 {
+				rec.Violate("C18/handler/admitted-beyond-burst-plus-rate-x-elapsed/configured-rate-zero/"+k.name, fmt.Sprintf("rate limiting configured through %s with a rate of 0 for %s: %d requests were served on a frozen clock (the burst), then %d more as 65 s of virtual time passed; the bound is burst + 0 x elapsed", via, k.name, first, later), map[string]any{"via": via})
+			}
+			rec.Distinct(fmt.Sprintf("zero-rates|%s|%s|burst-served=%d|later=%d", via, k.name, first, later))
+		}
+		srv.Close()
+	}
 }
